@@ -43,6 +43,37 @@ def gated (s : St) (cls msg : String) : St :=
 
 def fail (s : St) (msg : String) : St := { s with fails := msg :: s.fails }
 
+/-- insertion sort by key -/
+def insertBy (k : α → Rat) (a : α) : List α → List α
+  | [] => [a]
+  | b :: rest => if k a ≤ k b then a :: b :: rest else b :: insertBy k a rest
+def sortBy (k : α → Rat) (l : List α) : List α := l.foldl (fun acc a => insertBy k a acc) []
+
+open AdaptaVerif.Model.Nudge in
+/-- The corridor as ONE region of the model (Model/Nudge.lean): the displayRoute() segments that run
+    along the corridor, sorted by their final position, each with limits = the corridor walls. The
+    final positions must satisfy every constraint `genCons` generates with `sepDist := bound`
+    (hypothesis `AllHold` of `region_separation` / `region_limits`, decided by `Cons.holdsB`).
+    Returns the violated constraints. -/
+def corridorViolations (bound lo hi a0 a1 o0 o1 : Rat) (transpose : Bool) (disps : List (Nat × List P2)) : List String :=
+  let raw : List (Nat × Rat × Rat × Rat) := disps.flatMap (fun (id, r) =>
+    (segments r).filterMap (fun (p, q) =>
+      let (pv, pa, qv, qa) := if transpose then (p.x, p.y, q.x, q.y) else (p.y, p.x, q.y, q.x)
+      -- runs along the corridor axis, overlaps the block span [a0,a1] with positive length and
+      -- lies between the outer faces o0 < v < o1 of the two blocks (so not a detour around them)
+      if pv == qv && pa != qa && min (max pa qa) a1 - max (min pa qa) a0 > 0 && decide (o0 < pv) && decide (pv < o1)
+      then some (id, pv, min pa qa, max pa qa) else none))
+  let sorted := sortBy (fun (t : Nat × Rat × Rat × Rat) => t.2.1) raw
+  let segs : List Seg := sorted.map (fun (id, v, alo, ahi) => ⟨v, some lo, some hi, false, id, max alo a0, min ahi a1⟩)
+  let p : Params := ⟨bound, true, fun _ _ => false, fun _ _ => false, 0⟩
+  let xs := sorted.map (fun t => t.2.1)
+  let sol : Sol := ⟨fun i => xs.getD i 0, fun _ => lo, fun _ => hi⟩
+  (genCons p segs).filterMap (fun c => if c.holdsB sol then none else
+    some (match c with
+      | .sep j i g _ => s!"segments of connectors {(sorted.getD j default).1} and {(sorted.getD i default).1} at {ratToString (xs.getD j 0)} and {ratToString (xs.getD i 0)} are closer than {ratToString g}"
+      | .lower i l => s!"segment of connector {(sorted.getD i default).1} at {ratToString (xs.getD i 0)} is below the corridor limit {ratToString l}"
+      | .upper i u => s!"segment of connector {(sorted.getD i default).1} at {ratToString (xs.getD i 0)} is above the corridor limit {ratToString u}"))
+
 def checkCase (strict : List String) (c : Case) : CaseResult := Id.run do
   for l in c.lines do
     if (l[0]! == "route" || l[0]! == "disp") && l.any (fun t => t == "nan" || t == "-nan" || t == "inf" || t == "-inf") then
@@ -128,6 +159,20 @@ def checkCase (strict : List String) (c : Case) : CaseResult := Id.run do
               if wide then s := fail s msg else s := gated s "narrow-sep" msg
           | none => s := bump s "pairs.separated.no-longer-parallel"
   s := bump s "pairs.shared.before" sharedBefore
+  -- the corridor as one region of the model: limits (clause b) and separation via `genCons`
+  if wide then
+    let buf := rat! (cfg[4]?.getD "0")
+    let transpose := cfg[7]?.getD "0" == "1"
+    let bl := (c.get "block").toList.map (fun l => (rat! l[1]!, rat! l[2]!, rat! l[3]!, rat! l[4]!))
+    match bl with
+    | [(x0, y0, x1, y1), (x0', y0', x1', y1')] =>
+      let (lo, hi, a0, a1, o0, o1) := if transpose then (x1 + buf, x0' - buf, y0, y1, x0, x1') else (y1 + buf, y0' - buf, x0, x1, y0, y1')
+      let viol := corridorViolations bound lo hi a0 a1 o0 o1 transpose disps
+      s := bump s "corridor.regions"
+      for v in viol do
+        let msg := s!"wide corridor [{ratToString lo},{ratToString hi}]: {v}"
+        if finalNudge then s := gated s "opt-final-nudge" msg else s := fail s msg
+    | _ => pure ()
   -- Router::existsOrthogonalSegmentOverlap() as a cross-check (statistics only)
   let anyAfter := routes.any (fun (i, _) => routes.any (fun (j, _) => i < j &&
     sharedCollinearStretch ((lookup disps i).getD []) ((lookup disps j).getD [])))
